@@ -562,6 +562,9 @@ class _Gen:
                         allnames.append(n)
                         s.moved[uid] = (p.mid, n)
                         self.reexported.add(uid)
+                        if r.random() < .35:
+                            # the same re-exporter binds the object a second time, explicitly
+                            items.append(Item(kind='import', text=f'from {path} import {n}', binds=[(n, 'obj', uid)]))
                     continue
                 picks = r.sample(exp, min(len(exp), r.randint(1, 2)))
                 parts, binds = [], []
@@ -628,7 +631,7 @@ class _Gen:
             dmid, qual, kind = s.defs[uid]
             D, R = s.modname(dmid), s.modname(rmid)
             name = qual
-            for style in r.sample(['from-D', 'from-R', 'import-D', 'import-R', 'both'], r.randint(1, 3)):
+            for style in r.sample(['from-D', 'from-R', 'import-D', 'import-R', 'both', 'star-D', 'star-R'], r.randint(1, 4)):
                 cu = self.new_uid()
                 prefix = r.choice(['a', 'z', 'm'])
                 cm = Mod(len(s.mods), f'{prefix}cons{cu}', root.mid, False, order=10 ** 5 + cu)
@@ -640,6 +643,12 @@ class _Gen:
                 if style in ('from-R', 'both'):
                     lines.append(f'from {R} import {exported} as R{cu}')
                     refs.append((f'R{cu}', 'name'))
+                if style == 'star-D' and not name.startswith('_') and not s.notes.get(('all', dmid)):
+                    lines.append(f'from {D} import *')
+                    refs.append((name, 'name'))
+                if style == 'star-R' and not exported.startswith('_'):
+                    lines.append(f'from {R} import *')
+                    refs.append((exported, 'name'))
                 if style == 'import-D':
                     lines.append(f'import {D}')
                     refs.append((f'{D}.{name}', 'dotted'))
